@@ -9,8 +9,8 @@ import uuid as uuidlib
 import extract
 from lib import hx
 
-EXTRACT = ['ids', 'layouts', 'gen.c05nbt']
-EXTRA_PROPS = ['C05Hand', 'C05Stream', 'C05Nbt']
+EXTRACT = ['ids', 'layouts', 'gen.c05nbt', 'gen.c05dispatch']
+EXTRA_PROPS = ['C05Hand', 'C05Stream', 'C05Nbt', 'C05Dispatch']
 RULE = ("every supported protocol version (quick: rotating third + all layout-boundary versions) x every "
         "registered definition-driven packet class x 2..4 value sets (boundary + seeded random wire-"
         "representable values per field type, incl. nested arrays, positions, records, fixed point, angles); "
@@ -402,6 +402,7 @@ def run(ctx):
         for line, mo, g in zip(lines, ctx.driver.ask(lines), impl):
             if mo != g:
                 ctx.disagree('packet ' + what, line[:240], mo[:200], g[:200])
+    nbt_tie(ctx)
     # ------------------------------------------------------------------ hand-written codecs
     try:
         from corr import c05hand
@@ -409,6 +410,289 @@ def run(ctx):
         ctx.notes.append('hand-written codec harness not present')
         return
     c05hand.run_hand(ctx)
+
+
+def nbt_tie(ctx):
+    """Tie of Model/C05Nbt.lean (driver `nbt.enc`, `nbt.dec`, `nbt.fields.enc`, `nbt.fields.dec`) to the real
+    `NBT.send` / `NBT.read` (minecraft.networking.types, over the installed pynbt) and to write_fields / read of the
+    NBT-bearing packet layouts (JoinGame >= 718, Respawn >= 748) and of random user-defined layouts with NBT
+    fields.  pynbt tags have no __eq__: both sides are rendered as trees of (tag id, value) in the driver's value
+    syntax.  Floats are bit patterns (no signalling NaNs); strings stay within U+0001..U+FFFF, where MUTF-8 =
+    UTF-8: a damaged input whose real parse handed anything else to the MUTF-8 decoder, or met a signalling-NaN
+    float pattern (CPython quiets binary32 sNaNs on conversion), is left out (counted)."""
+    import struct as st
+    import minecraft
+    import pynbt as T
+    from minecraft.networking.connection import ConnectionContext
+    from minecraft.networking.packets import Packet, PacketBuffer
+    from minecraft.networking.packets.clientbound.play import JoinGamePacket, RespawnPacket
+    from minecraft.networking.types import NBT, basic as B
+    from gen import c05nbt as G
+    rng = ctx.rng
+    sh = lambda s: s.encode('utf-8').hex()
+    f32 = lambda bits: st.unpack('>f', st.pack('>I', bits))[0]
+    f64 = lambda bits: st.unpack('>d', st.pack('>Q', bits))[0]
+
+    def tag_tok(t):
+        c = type(t)
+        if c is T.TAG_End:
+            return '[i0,i%d]' % t.value
+        if c in (T.TAG_Byte, T.TAG_Short, T.TAG_Int, T.TAG_Long):
+            return '[i%d,i%d]' % (T._tags.index(c), t.value)
+        if c is T.TAG_Float:
+            return '[i5,i%d]' % st.unpack('>I', st.pack('>f', t.value))[0]
+        if c is T.TAG_Double:
+            return '[i6,i%d]' % st.unpack('>Q', st.pack('>d', t.value))[0]
+        if c is T.TAG_Byte_Array:
+            return '[i7,x%s]' % bytes(t.value).hex()
+        if c is T.TAG_String:
+            return '[i8,s%s]' % sh(t.value)
+        if c is T.TAG_List:
+            return '[i9,i%d,[%s]]' % (T._tags.index(t.type_), ','.join(tag_tok(x) for x in list(t)))
+        if c is T.TAG_Compound or c is T.NBTFile:
+            return '[i10,[%s]]' % entries_tok(t)
+        if c is T.TAG_Int_Array:
+            return '[i11,[%s]]' % ','.join('i%d' % x for x in t.value)
+        if c is T.TAG_Long_Array:
+            return '[i12,[%s]]' % ','.join('i%d' % x for x in t.value)
+        raise ValueError('unknown tag class %r' % (c,))
+
+    def entries_tok(d):
+        return ','.join('[s%s,%s]' % (sh(k), tag_tok(v)) for k, v in d.items())
+
+    def root_tok(name, d):
+        return '[s%s,[%s]]' % (sh(name), entries_tok(d))
+
+    CH = u'abcXYZ_:09 \x01\x7f\xe9Ж世￿'
+
+    def rnd_str(maxlen=8):
+        return ''.join(rng.choice(CH) for _ in range(rng.choice([0, 1, 2, 3, rng.randrange(0, maxlen + 1)])))
+
+    def edge(lo, hi, wild):
+        if wild and rng.random() < 0.12:             # outside the wire range: struct.error on writing
+            return rng.choice([lo - 1, hi, hi + 5, lo - 2 ** 40])
+        return rng.choice([lo, hi - 1, 0, 1, -1, rng.randrange(lo, hi)])
+
+    def rnd_tag(depth, wild, kind=None):
+        k = kind if kind is not None else rng.choice([1, 2, 3, 4, 5, 6, 7, 8, 8, 9, 9, 10, 10, 11, 12])
+        if k in (9, 10) and depth >= 3:
+            if kind is None:
+                k = 3
+            else:                                    # a list item must be of the list's class: an empty container
+                return T.TAG_List(T.TAG_End, []) if k == 9 else T.TAG_Compound({})
+        if k == 1:
+            return T.TAG_Byte(edge(-128, 128, wild))
+        if k == 2:
+            return T.TAG_Short(edge(-2 ** 15, 2 ** 15, wild))
+        if k == 3:
+            return T.TAG_Int(edge(-2 ** 31, 2 ** 31, wild))
+        if k == 4:
+            return T.TAG_Long(edge(-2 ** 63, 2 ** 63, wild))
+        if k == 5:
+            return T.TAG_Float(f32(rng.choice([0, 0x80000000, 0x3f800000, 0x7f800000, 0xff800000, 0x7fc00000, 1, 0x3dcccccd,
+                                               rng.randrange(0, 0x7f800000), 0x80000000 | rng.randrange(0, 0x7f800000)])))
+        if k == 6:
+            return T.TAG_Double(f64(rng.choice([0, 1 << 63, 0x3ff0000000000000, 0x7ff0000000000000, 0x7ff8000000000000, 1,
+                                               rng.randrange(0, 0x7ff0000000000000), (1 << 63) | rng.randrange(0, 0x7ff0000000000000)])))
+        if k == 7:
+            return T.TAG_Byte_Array(bytearray(rng.randrange(256) for _ in range(rng.randrange(0, 6))))
+        if k == 8:
+            return T.TAG_String(rnd_str())
+        if k == 9:
+            n = rng.choice([0, 0, 1, 2, 3])
+            it = rng.choice([0, 1, 3, 5, 7, 8, 9, 10, 11, 12]) if n == 0 else rng.choice([1, 2, 3, 4, 5, 6, 7, 8, 9, 10, 11, 12])
+            return T.TAG_List(T._tags[it], [rnd_tag(depth + 1, wild, it) for _ in range(n)])
+        if k == 10:
+            return T.TAG_Compound(rnd_kids(depth + 1, wild))
+        if k == 11:
+            return T.TAG_Int_Array([edge(-2 ** 31, 2 ** 31, wild) for _ in range(rng.randrange(0, 4))])
+        return T.TAG_Long_Array([edge(-2 ** 63, 2 ** 63, wild) for _ in range(rng.randrange(0, 4))])
+
+    def rnd_kids(depth, wild):
+        out = {}
+        for _ in range(rng.choice([0, 1, 1, 2, 3, 5]) if depth else rng.randrange(0, 6)):
+            out[rnd_str(5) if rng.random() < 0.8 else rng.choice(['', 'a', 'minecraft:dimension_type'])] = rnd_tag(depth, wild)
+        return out
+
+    def send_real(value):
+        buf = PacketBuffer()
+        try:
+            NBT.send(value, buf)
+        except Exception as e:
+            return None, 'err:' + G.err_of(e)
+        return buf.get_writable(), 'ok ' + hx(buf.get_writable())
+
+    import mutf8 as MU
+    handed = []
+    orig_dec = MU.decode_modified_utf8
+
+    def spy_dec(b):
+        handed.append(bytes(b))
+        return orig_dec(b)
+
+    def plain(b):
+        try:
+            s = b.decode('utf-8')
+        except UnicodeDecodeError:
+            return False
+        return all(1 <= ord(ch) <= 0xFFFF for ch in s)
+
+    def read_real(data):
+        """-> (reply the model must give, in scope?)"""
+        pb = PacketBuffer()
+        pb.send(data)
+        pb.reset_cursor()
+        del handed[:]
+        snan = []
+        orig_big = T._read_big
+
+        def spy_big(src, fmt, size):
+            raw = src.read(size)
+            if fmt in ('f', 'd') and len(raw) == size:
+                bits, mant = int.from_bytes(raw, 'big'), (23 if fmt == 'f' else 52)
+                expo = (bits >> mant) & ((1 << (8 * size - 1 - mant)) - 1)
+                if expo == (1 << (8 * size - 1 - mant)) - 1 and bits & ((1 << mant) - 1) and not bits & (1 << (mant - 1)):
+                    snan.append(raw)      # a signalling NaN: CPython's float conversions may quiet it (binary32 does here)
+            return st.unpack('>' + fmt, raw)
+        MU.decode_modified_utf8, T._read_big = spy_dec, spy_big
+        try:
+            try:
+                r = NBT.read(pb)
+                got = 'ok %s %s' % (root_tok(r.name, r), hx(pb.read()))
+            except Exception as e:
+                got = 'err:' + G.err_of(e)
+        finally:
+            MU.decode_modified_utf8, T._read_big = orig_dec, orig_big
+        return got, all(plain(b) for b in handed) and not snan
+
+    lines, want, what = [], [], []
+
+    def add(line, w, wh):
+        lines.append(line)
+        want.append(w)
+        what.append(wh)
+    if T.BaseTag._read_utf8.__globals__.get('mutf8') is not MU:
+        ctx.disagree('pynbt no longer decodes strings through the module `mutf8`: the scope filter of the NBT tie is blind', None, None, None)
+    # ---- A. random trees: NBT.send, then NBT.read of the bytes followed by stray bytes; named roots
+    encodings = []
+    for i in range(ctx.scale(200, 3000)):
+        wild = rng.random() < 0.25
+        kids = rnd_kids(0, wild)
+        name = '' if rng.random() < 0.8 else rnd_str(6)
+        tokv = root_tok(name, T.TAG_Compound(dict(kids)))        # rendering does not touch the tags' names
+        value = kids if name == '' and rng.random() < 0.8 else T.NBTFile(name=name, value=kids)
+        data, got = send_real(value)
+        add('nbt.enc ' + tokv, got, 'NBT.send')
+        if data is None:
+            continue
+        encodings.append(data)
+        if name:                      # what a server that names its root would send: saved by pynbt under that name
+            import io as _io
+            bio = _io.BytesIO()
+            T.NBTFile(name=name, value=value).save(bio)
+            data = bio.getvalue()
+        stray = bytes(rng.randrange(256) for _ in range(rng.choice([0, 0, 1, 2, 5])))
+        got, ok = read_real(data + stray)
+        if ok:
+            add('nbt.dec ' + hx(data + stray), got, 'NBT.read')
+    # ---- B. damaged / truncated encodings and the generator's irregular inputs
+    damaged = [bytes.fromhex(h) for h in G.IRREGULAR]
+    for i in range(ctx.scale(300, 5000)):
+        d = bytearray(rng.choice(encodings)) if encodings else bytearray(b'\x0a\x00\x00\x00')
+        for _ in range(rng.choice([1, 1, 2, 3])):
+            x = rng.random()
+            if x < 0.25 and d:
+                del d[rng.randrange(len(d)):]
+            elif x < 0.7 and d:
+                d[rng.randrange(len(d))] = rng.choice([0, 1, 8, 9, 10, 11, 12, 13, 0x7f, 0x80, 0xf3, 0xff, rng.randrange(256)])
+            elif x < 0.85 and d:
+                del d[rng.randrange(len(d))]
+            else:
+                d.insert(rng.randrange(len(d) + 1), rng.randrange(256))
+        damaged.append(bytes(d))
+    skipped = 0
+    for d in damaged:
+        got, ok = read_real(d)
+        if not ok:
+            skipped += 1
+            continue
+        add('nbt.dec ' + hx(d), got, 'NBT.read (irregular input)')
+    ctx.count('nbt.dec.outside_scope_mutf8_or_snan', skipped)
+    # ---- C. packet layouts with NBT fields (the rows the main loop skips) and user-defined layouts
+    sup = sorted(minecraft.SUPPORTED_PROTOCOL_VERSIONS, key=minecraft.PROTOCOL_VERSION_INDICES.get)
+    jobs = []
+    seen = set()
+    for cls in (JoinGamePacket, RespawnPacket):
+        for v in sup:
+            cx = ConnectionContext(protocol_version=v)
+            d = [(n, t) for f in cls.get_definition(cx) for n, t in f.items()]
+            if not any(t is B.NBT for _, t in d):
+                continue
+            toks = [extract.wtype_of(t, cx)[1] for _, t in d]
+            reps = 3 if (cls.__name__, tuple(toks)) not in seen else 1
+            seen.add((cls.__name__, tuple(toks)))
+            jobs += [(cls, cx, d, toks, '%s at protocol %d' % (cls.__name__, v))] * reps
+    ctx.extra['nbt_layouts_tied'] = len(seen)
+    atoms = [('bool', B.Boolean), ('u8', B.UnsignedByte), ('i32', B.Integer), ('i64', B.Long), ('varint', B.VarInt), ('string', B.String),
+             ('uuid', B.UUID), ('bytesv', B.VarIntPrefixedByteArray), ('nbt', B.NBT), ('nbt', B.NBT), ('arr/varint/string', B.PrefixedArray(B.VarInt, B.String))]
+    cx757 = ConnectionContext(protocol_version=757)
+    for i in range(ctx.scale(80, 1500)):
+        fields = [rng.choice(atoms) for _ in range(rng.randrange(1, 6))]
+        if not any(t == 'nbt' for t, _ in fields):
+            fields.insert(rng.randrange(len(fields) + 1), ('nbt', B.NBT))
+
+        class UserNbt(Packet):
+            id = 0x79
+            definition = [{'f%d' % k: t} for k, (_, t) in enumerate(fields)]
+        jobs.append((UserNbt, cx757, [('f%d' % k, t) for k, (_, t) in enumerate(fields)], [t for t, _ in fields], 'user-defined'))
+    for cls, cx, d, toks, label in jobs:
+        p = cls(cx)
+        mvals, exps = [], []
+        wild = rng.random() < 0.1
+        for (n, t), tok in zip(d, toks):
+            if t is B.NBT:
+                kids = rnd_kids(0, wild)
+                setattr(p, n, kids)
+                mvals.append(root_tok('', T.TAG_Compound(dict(kids))))
+                exps.append(None)
+            else:
+                pyv, mv, exp = gen_value(rng, tok, cx, boundary=rng.random() < 0.5)
+                setattr(p, n, pyv)
+                mvals.append(mv)
+                exps.append(exp)
+        buf = PacketBuffer()
+        try:
+            p.write_fields(buf)
+            data, got = buf.get_writable(), 'ok ' + hx(buf.get_writable())
+        except Exception as e:
+            data, got = None, 'err:' + G.err_of(e)
+        add('nbt.fields.enc %s %s' % (';'.join(toks), ';'.join(mvals)), got, 'write_fields (%s)' % label)
+        if data is None:
+            continue
+        q = cls(cx)
+        rb = PacketBuffer()
+        rb.send(data + b'\x99')
+        rb.reset_cursor()
+        try:
+            q.read(rb)
+            shown = []
+            for (n, t), mv, exp in zip(d, mvals, exps):
+                gv = getattr(q, n)
+                if t is B.NBT:
+                    shown.append(root_tok(gv.name, gv))
+                else:          # the written token stands for the value iff it reads back as written
+                    shown.append(mv if same(exp, canon(gv)) else 'differs:%r' % (gv,))
+            got = 'ok %s %s' % (';'.join(shown), hx(rb.read()))
+        except Exception as e:
+            got = 'err:' + G.err_of(e)
+        add('nbt.fields.dec %s %s' % (';'.join(toks), hx(data + b'\x99')), got, 'read (%s)' % label)
+    for line, mo, w, wh in zip(lines, ctx.driver.ask(lines), want, what):
+        op = line.split()[0]
+        ctx.case(('nbt', line), sample={'op': op, 'impl': w[:120]} if rng.random() < 0.05 else None)
+        ctx.count('%s.%s' % (op, w.split()[0]))
+        if mo != w:
+            ctx.disagree('%s vs the real %s' % (op, wh), line[:700], mo[:400], w[:400])
+    ctx.extra['c05nbt_pairs'] = ctx.extra.get('c05nbt_pairs', 0) + len(lines)
 
 
 def replay(ctx, rp):
